@@ -228,6 +228,12 @@ func (e *Engine) callAsserts(fr *Frame, st *State, fn *ssa.Function, args []SV, 
 		if ca.Text != rn && ca.Text != fn.Name() {
 			continue
 		}
+		if ca.Site != "" {
+			pp := e.prog.Fset.Position(pos)
+			if !strings.Contains(e.sourceLine(pp.Filename, pp.Line), ca.Site) {
+				continue
+			}
+		}
 		if fr.callHits == nil {
 			fr.callHits = map[int]int{}
 		}
